@@ -198,6 +198,150 @@ def case_strip(case):
     return finish_case(I, res)
 
 
+# ---- the macro's wrapper function, with proc_macro::TokenStream modelled as an opaque value carrying the item's AST ----------
+class ItemTokens:
+    """proc_macro::TokenStream of one item: carries the syn::Item value syn::parse would see"""
+    type_name = "TokenStream"
+
+    def __init__(self, item):
+        self.item = item
+
+    def clone(self, I):
+        import copy
+        return ItemTokens(copy.deepcopy(self.item))
+
+
+_WRAPPER_MODELS = False
+
+
+def install_wrapper_models():
+    """models that only this harness needs; they take precedence over the generic ToTokens / clone models"""
+    global _WRAPPER_MODELS
+    if _WRAPPER_MODELS:
+        return
+    _WRAPPER_MODELS = True
+    from vlib.mirsym.models_core import model, MODELS
+    import copy
+    n0 = len(MODELS)
+
+    @model(r"^syn::parse$")
+    def syn_parse_derive(I, a, n):
+        if "DeriveInput" not in n:
+            raise Unsupported("syn::parse of " + n)
+        ts = unbox(a[0])
+        L = I.prog.layout
+        kind = L.syn_enums["Item"][ts.item.variant]
+        if kind not in ("Struct", "Enum", "Union"):
+            return ERR(Opaque("syn::Error", "expected one of: `struct`, `enum`, `union`"))
+        return OK(derive_input(I.prog, copy.deepcopy(ts.item)))
+
+    @model(r"^<proc_macro::TokenStream as std::clone::Clone>::clone$")
+    def ts_clone(I, a, n):
+        v = unbox(a[0])
+        return v.clone(I) if isinstance(v, ItemTokens) else v
+
+    @model(r"^<syn::DeriveInput as quote::ToTokens>::to_token_stream$")
+    def di_to_tokens(I, a, n):
+        return Opaque("TokenStream2", copy.deepcopy(unbox(a[0])))
+
+    @model(r"^<proc_macro::TokenStream as std::convert::From<proc_macro2::TokenStream>>::from$|^<proc_macro::TokenStream as std::convert::From>::from$")
+    def ts_from_ts2(I, a, n):
+        return a[0]
+    new = MODELS[n0:]
+    del MODELS[n0:]
+    MODELS[0:0] = new
+
+
+WRAPPER_ITEMS = {
+    "struct": TEMPLATES["struct-named"], "enum": TEMPLATES["enum-variant-then-fields"], "union": TEMPLATES["union"],
+    "type-alias": "#[PLA0]\npub type T = Vec<u32>;", "const": "pub const T: u32 = 1;", "fn": "pub fn t() {}",
+}
+
+
+def case_wrapper(case):
+    """`typeshare(attr, item)`: for struct/enum/union the returned tokens are the stripped DeriveInput; every other item is handed back untouched"""
+    kind, slot_len = case
+    P = prog()
+    L = P.layout
+    I = new_interp(P)
+    install_wrapper_models()
+    res = {"paths": 0, "violations": [], "case": list(case)}
+    src = WRAPPER_ITEMS[kind]
+    n = max([int(x[0]) for x in src.split("PLA")[1:] if x[0] != "9"] + [-1]) + 1
+
+    def slot_chars(i):
+        return [z3.BitVec("a%d_%d" % (i, j), 32) for j in range(slot_len)]
+
+    def entry(I):
+        f = synast.parse_source(P, src)
+        mapping = {"PLA9": [ord(c) for c in TS]}
+        for i in range(n):
+            cs = slot_chars(i)
+            for c in cs:
+                I.assume(z3.Or(z3.And(z3.UGE(c, 97), z3.ULE(c, 122)), c == 95))
+            mapping["PLA%d" % i] = cs
+        synast.plant(f, mapping)
+        item = synast.file_items(P, f)[0]
+        tokens = ItemTokens(item)
+        out = I.call_static("typeshare", [Opaque("TokenStream", "attr"), tokens])
+        return tokens, out
+
+    for kind_, out, pc in I.explore(entry, max_paths=3000):
+        res["paths"] += 1
+        if kind_ == "panic":
+            res["violations"].append({"kind": "panic", "msg": out.msg}); continue
+        tokens, ret = out
+        ret = unbox(ret)
+        derivable = kind in ("struct", "enum", "union")
+        m0 = lambda: ["".join(chr(I.sat_model(z3.BoolVal(True)).eval(c, model_completion=True).as_long()) for c in slot_chars(i)) for i in range(n)]
+        if not derivable:
+            if ret is not tokens:
+                res["violations"].append({"kind": "non-derive-item-not-passed-through", "names": m0()})
+            continue
+        if not (isinstance(ret, Opaque) and ret.what == "TokenStream2"):
+            # the original tokens came back: fine only if there was nothing to strip on this path
+            di = derive_input(P, tokens.item)
+            anything = False
+            for w, h in members(P, di):
+                for a in h.fields[0].items:
+                    c = attr_name_is_ts(I, P, a)
+                    if c is True or (c is not False and I.sat_model(c) is not None):
+                        anything = True
+            if anything:
+                res["violations"].append({"kind": "typeshare-attribute-kept", "where": "wrapper returned the input unchanged", "names": m0()})
+            continue
+        di = ret.data
+        for w, h in members(P, di):
+            for a in h.fields[0].items:
+                c = attr_name_is_ts(I, P, a)
+                m = I.sat_model(z3.BoolVal(True)) if c is True else (None if c is False else I.sat_model(c))
+                if m is not None:
+                    res["violations"].append({"kind": "typeshare-attribute-kept", "where": w, "names": ["".join(chr(m.eval(c2, model_completion=True).as_long()) for c2 in slot_chars(i)) for i in range(n)]})
+        # nothing but typeshare attributes went missing: compare with the original
+        orig = derive_input(P, tokens.item)
+        for (w, h), (_, h0) in zip(members(P, di), members(P, orig)):
+            kept = len(h.fields[0].items)
+            total = len(h0.fields[0].items)
+            ts_count = 0
+            sym = []
+            for a in h0.fields[0].items:
+                c = attr_name_is_ts(I, P, a)
+                if c is True:
+                    ts_count += 1
+                elif c is not False:
+                    sym.append(c)
+            # on this path every symbolic comparison has been decided by a branch: count the ones forced true
+            forced = sum(1 for c in sym if I.sat_model(z3.Not(c)) is None)
+            if kept != total - ts_count - forced:
+                m = I.sat_model(z3.BoolVal(True))
+                res["violations"].append({"kind": "other-attribute-removed", "where": w, "names": ["".join(chr(m.eval(c2, model_completion=True).as_long()) for c2 in slot_chars(i)) for i in range(n)]})
+    uniq = {}
+    for v in res["violations"]:
+        uniq.setdefault((v["kind"], v.get("where")), v)
+    res["violations"] = list(uniq.values())
+    return finish_case(I, res)
+
+
 def strip_attrs(P, di):
     for w, h in members(P, di):
         h.fields[0] = RVec([])
@@ -210,11 +354,29 @@ def run(rep, tier, only=None):
     cases = [(t, ln) for t in TEMPLATES for ln in ((9, 10) if tier == "quick" else (8, 9, 10, 11))]
     rep.bounds = {"templates": sorted(TEMPLATES), "attribute slots": "up to 5 per template, each with a symbolic path name over [a-z_] of length 9 and 10 (thorough: 8..11), so `typeshare`, every near miss, and every name that merely starts or ends with it is a value, next to concrete serde / doc / cfg / derive / typeshare attributes",
                   "positions": "struct fields (named, tuple), enum variants, tuple- and struct-variant fields, union fields, item level"}
-    rep.outside = ["the proc-macro wrapper `typeshare` (proc_macro::TokenStream exists only inside rustc): parse-or-pass-through is not executed",
+    rep.outside = ["native replay of the proc-macro wrapper `typeshare` (proc_macro::TokenStream exists only inside rustc): the wrapper is executed from MIR with models for TokenStream / syn::parse / ToTokens, a finding that only the wrapper shows is reported INCONCLUSIVE",
                    "re-tokenisation of the DeriveInput by syn/quote, and what rustc and serde do with the result (compiles exactly when / same serialised form): the twin-program experiment of the property needs the compiler, not a solver",
                    "attribute paths with several segments are concrete only (typeshare::skip, my::typeshare, serde, doc, cfg)"]
     rep.assumptions = ["DeriveInput values are built from the real syn's Item AST of each template (same field content syn::parse::<DeriveInput> produces)",
                        "syn Path -> to_token_stream().to_string() model: single identifier prints as itself"]
+    wcases = [(k, 9) for k in WRAPPER_ITEMS]
+    rep.harnesses["wrapper"] = len(wcases)
+    rep.bounds["wrapper"] = "the macro function `typeshare` itself on a struct, an enum, a union (stripped DeriveInput comes back) and on a type alias, a const and a fn (input handed back untouched); proc_macro::TokenStream, syn::parse::<DeriveInput> and ToTokens are models"
+    for st, case, r in pmap(("checks.c19", "case_wrapper"), wcases):
+        rep.obligations += 1
+        if st != "ok":
+            rep.inconc("wrapper %s: %s" % (case, r)); continue
+        account(rep, r); rep.discharged += 1
+        for v in r["violations"]:
+            # the wrapper cannot be run outside rustc: a violation found only here is reported as inconclusive unless the kernel replay confirms it
+            tn = {"struct": "struct-named", "enum": "enum-variant-then-fields", "union": "union"}.get(case[0])
+            ok, why, payload = native(tn, v) if tn else (None, "the proc-macro wrapper cannot be replayed outside rustc", None)
+            rep.validated += 1
+            sig = {"group": "wrapper", "kind": v["kind"], "item": case[0]}
+            if ok:
+                rep.violation(sig, why, payload)
+            else:
+                rep.inconc("wrapper %s: %s - not reproducible through the stripping kernel (%s); the macro function itself cannot be replayed outside rustc" % (case, v, why))
     rep.harnesses["strip"] = len(cases)
     for st, case, r in pmap(("checks.c19", "case_strip"), cases):
         rep.obligations += 1
